@@ -5624,12 +5624,8 @@ public:
             return true;
         }
 
-        const auto prev_block_length =
-            set_group_block_length(*header.blockLength());
-        sbepp::visit_children(g, c, *this);
-        set_group_block_length(prev_block_length);
-
-        return !is_valid();
+        return !validate_entries(
+            g, c, *header.blockLength(), is_flat_group<T>{});
     }
 
     template<typename T, typename Cursor>
@@ -5646,7 +5642,11 @@ public:
     template<typename T, typename Tag>
     SBEPP_CPP14_CONSTEXPR bool on_data(T d, Tag) noexcept
     {
-        return !validate_and_subtract(sbepp::size_bytes(d));
+        // length prefix and payload are validated separately because their
+        // sum can overflow `std::size_t`
+        return !(
+            validate_and_subtract(sizeof(typename T::size_type))
+            && validate_and_subtract(d.size()));
     }
 
     // ignore them all because we validate `blockLength`
@@ -5680,6 +5680,44 @@ private:
     bool valid{true};
     // current group's blockLength, used to validate entry
     std::size_t group_block_length{};
+
+    // entries of a flat group have nothing but a fixed-size block, there's no
+    // need to visit them one by one. It also makes the amount of work
+    // independent of `numInGroup` which is important for empty entries
+    template<typename T, typename Cursor>
+    SBEPP_CPP14_CONSTEXPR bool validate_entries(
+        T g,
+        Cursor& c,
+        const std::size_t block_length,
+        std::true_type /*is_flat*/) noexcept
+    {
+        const std::size_t count = g.size();
+        if((block_length != 0) && (count > (size / block_length)))
+        {
+            valid = false;
+        }
+        else
+        {
+            size -= count * block_length;
+            c.pointer() += count * block_length;
+        }
+
+        return valid;
+    }
+
+    template<typename T, typename Cursor>
+    SBEPP_CPP14_CONSTEXPR bool validate_entries(
+        T g,
+        Cursor& c,
+        const std::size_t block_length,
+        std::false_type /*is_flat*/) noexcept
+    {
+        const auto prev_block_length = set_group_block_length(block_length);
+        sbepp::visit_children(g, c, *this);
+        set_group_block_length(prev_block_length);
+
+        return valid;
+    }
 
     SBEPP_CPP14_CONSTEXPR bool
         validate_and_subtract(const std::size_t n) noexcept
